@@ -70,6 +70,7 @@ variable {ν κ ε σ γ : Type}
 spike trains -/
 def lift (bt : List (List Syn)) (g : Syn → ε) : Rec ε := bt.map (·.map g)
 
+/-- zipping two maps of the same list is one map -/
 theorem zipWith_map_same {α β γ δ : Type} (f : β → γ → δ) (g : α → β) (h : α → γ) (l : List α) :
     List.zipWith f (l.map g) (l.map h) = l.map (fun x => f (g x) (h x)) := by
   induction l <;> simp_all
@@ -85,6 +86,7 @@ theorem recZip_lift (f : ε → ε → ε) (bt : List (List Syn)) (g h : Syn →
   intro f _
   rw [zipWith_map_same]
 
+/-- an element-wise unary operation of a lifted tensor is the lifted operation -/
 theorem map2_lift {β : Type} (bt : List (List Syn)) (g : Syn → ε) (f : ε → β) :
     (lift bt g).map (·.map f) = lift bt (fun s => f (g s)) := by
   simp [lift, List.map_map, Function.comp_def]
@@ -172,6 +174,8 @@ theorem forUnitsAux_ok (self : Trainer σ α ε ν) (c : γ)
   | cons u us ih =>
     simp only [forUnitsAux, h u (by simp), ih (fun v hv => h v (by simp [hv])), List.map_cons]
 
+/-- `for name, (cell, state, monitors) in zip(self.cells_, self)`: the loop maps every unit `u` to `g u` when its body does
+(and passes the loop-carried locals on) -/
 theorem forNamedUnits_ok (self : Trainer σ α ε ν) (c : γ)
     (body : Trainer σ α ε ν → γ → String → Cell α ε ν → σ → List (String × Monitor α ν) → Except Err (Cell α ε ν × γ))
     (g : TUnit σ α ε ν → Cell α ε ν)
@@ -180,6 +184,7 @@ theorem forNamedUnits_ok (self : Trainer σ α ε ν) (c : γ)
   unfold forNamedUnits
   rw [forUnitsAux_ok self c body g self.units h]
 
+/-- `for cell, state, monitors in self`: the same for the loop without names -/
 theorem forUnits_ok (self : Trainer σ α ε ν) (c : γ)
     (body : Trainer σ α ε ν → γ → Cell α ε ν → σ → List (String × Monitor α ν) → Except Err (Cell α ε ν × γ))
     (g : TUnit σ α ε ν → Cell α ε ν)
@@ -208,16 +213,19 @@ def stepped (self : Trainer σ α ε ν) (act : TUnit σ α ε ν → Bool) (f :
     Trainer σ α ε ν :=
   { self with units := self.units.map fun u => { u with cell := if act u then assign u.cell (f u) else u.cell } }
 
+/-- the generated gate expression is the negation of `active` -/
 theorem gate_eq (self : Trainer σ α ε ν) (u : TUnit σ α ε ν) :
     ((!u.cell.training) || (!self.training) || (!u.cell.updater.isSome)) = !active self u := by
   unfold active
   cases u.cell.training <;> cases self.training <;> cases u.cell.updater.isSome <;> rfl
 
+/-- the generated `cells is not None and name not in cells` is the negation of `selected` -/
 theorem cells_gate_eq (cells : Option (List String)) (u : TUnit σ α ε ν) :
     (Option.elim cells false (fun cells => (!(strIn u.name cells)))) = !selected cells u := by
   unfold selected strIn
   cases cells <;> rfl
 
+/-- on an active unit (the cell has an updater) `cell.updater.<p> = v` succeeds and appends to the log -/
 theorem setattr_active (self : Trainer σ α ε ν) (u : TUnit σ α ε ν) (ha : active self u = true) (p : String)
     (v : Split.Parts α) : updater_setattr u.cell p v = .ok (assign u.cell (p, v)) := by
   unfold active at ha
@@ -316,15 +324,18 @@ def preKw (u : KUnit ν κ) : List (String × κ) :=
 /-- a half kernel `ℝ → ℝ` of the model as a function of receptive-format tensors: point-wise, `NaN` stays `NaN` -/
 def pointwise (k : ℝ → ℝ) (X : Rec (Option ℝ)) : Rec (Option ℝ) := X.map (·.map (·.map k))
 
+/-- a point-wise kernel on a lifted `t_delta` -/
 theorem pointwise_lift (k : ℝ → ℝ) (bt : List (List Syn)) (td : Syn → Option ℝ) :
     pointwise k (lift bt td) = lift bt (fun s => (td s).map k) := by
   unfold pointwise; rw [map2_lift]
 
+/-- `dpost.clamp_min(0.0)` on a lifted kernel output: the model's `clampMin0` under `Option.map` -/
 theorem clampMin_lift (bt : List (List Syn)) (td : Syn → Option ℝ) (k : ℝ → ℝ) :
     recClampMin0 (lift bt fun s => (td s).map k) = lift bt fun s => (td s).map fun x => clampMin0 (k x) := by
   unfold recClampMin0; rw [map2_lift]; congr 1; funext s
   cases td s <;> simp [(clamps_eq _).1]
 
+/-- `dpost.clamp_max(0.0)` on a lifted kernel output -/
 theorem clampMax_lift (bt : List (List Syn)) (td : Syn → Option ℝ) (k : ℝ → ℝ) :
     recClampMax0 (lift bt fun s => (td s).map k) = lift bt fun s => (td s).map fun x => clampMax0 (k x) := by
   unfold recClampMax0; rw [map2_lift]; congr 1; funext s
@@ -450,17 +461,20 @@ theorem gen_kernel_forward (self : Trainer (KState ℝ κ) ℝ (Option ℝ) ν)
 
 /-! ### the three-factor rules: `DelayAdjustedMSTDP.forward`, `DelayAdjustedMSTDPD.forward` -/
 
+/-- `x * col` as the model writes it (`zip`, then multiply the pair) -/
 theorem zipWith_mul_eq (a b : List ℝ) : List.zipWith (· * ·) a b = (a.zip b).map fun x => x.1 * x.2 := by
   induction a generalizing b with
   | nil => simp
   | cons x a ih => cases b <;> simp_all
 
+/-- `mapM` over a mapped list -/
 theorem mapM_map_except {α β γ : Type} (f : β → Except Err γ) (g : α → β) (l : List α) :
     (l.map g).mapM f = l.mapM (fun a => f (g a)) := by
   induction l with
   | nil => rfl
   | cons a l ih => simp [List.mapM_cons, ih]
 
+/-- the indices `< n + 1` satisfying `q`: index `0`, then the shifted indices of the tail -/
 theorem filter_range_succ (q : ℕ → Bool) (n : ℕ) :
     (List.range (n + 1)).filter q
       = (if q 0 then [0] else []) ++ ((List.range n).filter (fun i => q (i + 1))).map (· + 1) := by
@@ -491,11 +505,13 @@ theorem bIndex_argwhere {α β : Type} (p : β → Bool) (s : List β) (x : List
           mapM_map_except, List.getElem?_cons_succ, ih', bind, Except.bind, pure, Except.pure]
       · simp only [hp, Bool.false_eq_true, if_false, List.nil_append, mapM_map_except, List.getElem?_cons_succ, ih']
 
+/-- `x[torch.argwhere(signal >= 0).view(-1)]` is `pick (· ≥ 0)` -/
 theorem argwhereGe0_pick (sig x : List ℝ) (hl : x.length = sig.length) :
     bIndex x (argwhereGe0 sig) = .ok (pick (fun s => decide (s ≥ 0)) sig x) := by
   unfold argwhereGe0 pick
   exact bIndex_argwhere (fun s => decide (s ≥ 0)) sig x hl
 
+/-- `x[torch.argwhere(signal < 0).view(-1)]` is `pick (· < 0)` -/
 theorem argwhereLt0_pick (sig x : List ℝ) (hl : x.length = sig.length) :
     bIndex x (argwhereLt0 sig) = .ok (pick (fun s => decide (s < 0)) sig x) := by
   unfold argwhereLt0 pick
@@ -515,6 +531,7 @@ theorem scaled_eq (x y sig : List ℝ) (scale : ℝ) (hl : x.length = sig.length
   simp only [List.length_map, hl, if_true, List.map_map, zipWith_mul_eq]
   rfl
 
+/-- the scaled per-sample terms still have one entry per sample -/
 theorem scaled_length (x sig : List ℝ) (scale : ℝ) (hl : x.length = sig.length) :
     ((x.zip (sig.map fun s => absT (s * scale))).map fun y => y.1 * y.2).length = sig.length := by
   simp [hl]
@@ -531,13 +548,15 @@ theorem signal_split_eq (lrPos lrNeg : ℝ) (r : Red) (sig : List ℝ) (scale : 
          (pick (fun s => decide (s ≥ 0)) sig dpre) (pick (fun s => decide (s < 0)) sig dpre)
        (redOpt r d.1, redOpt r d.2)) := rfl
 
-/-- the reward of a call: a Python float or one value per batch sample -/
+/-- the pair `DelayAdjustedMSTDP.forward` assigns, by the form of the reward (a Python float or one value per batch
+sample) -/
 noncomputable def damParts (c : DCfg) (r : Red) (d : ℝ) (bt : List (List Syn)) (signal : Signal ℝ) (scale : ℝ) (t : ℕ) :
     Split.Parts ℝ :=
   match signal with
   | .float sg => damScalar c r d bt sg scale t
   | .tensor sig => damTensor c r d bt sig scale t
 
+/-- the pair `DelayAdjustedMSTDPD.forward` assigns, by the form of the reward -/
 noncomputable def damdParts (c : DCfg) (r : Red) (d : ℝ) (bt : List (List Syn)) (signal : Signal ℝ) (scale : ℝ) (t : ℕ) :
     Split.Parts ℝ :=
   match signal with
@@ -818,6 +837,7 @@ theorem forUnitsAux_first {σ ε : Type} (self : Trainer σ α ε ν)
       simp only [FirstNotSkipped, hs, Bool.false_eq_true, if_false] at hfirst
       simp only [forUnitsAux, hfirst]
 
+/-- `FirstNotSkipped` is monotone in the property of the first element that is not skipped -/
 theorem FirstNotSkipped.imp {A : Type} (skip : A → Bool) (P Q : A → Prop) (us : List A)
     (hpq : ∀ u ∈ us, skip u = false → P u → Q u) (h : FirstNotSkipped skip P us) : FirstNotSkipped skip Q us := by
   induction us with
